@@ -860,6 +860,12 @@ def _expand_one(a, ghost_pairs):   # noqa: F811  (extends the earlier definition
 NODE_NAMES = ['p', 'pq', 'p2', 'base', 'base_entity', 'q', 'r', 'n']
 
 
+# type forms of the intermediate structs.  `G<i32> { .. }` is a type but not an expression (the literal needs the turbofish), so the
+# checks that read the generated bodies use forms that are both; C18 adds the plain generic forms (it compares the two back-ends only)
+TREE_TYPE_FORMS = ['T%d', 'T%d', 'T%d', 'x::T%d', 'G%d::<u8>']
+TREE_TYPE_FORMS_GENERIC = TREE_TYPE_FORMS + ['G%d<i32>', 'm::G%d<u8, i8>', "L%d<'a>"]
+
+
 class Tree:
     """a nesting tree on the counterpart side: node name (ident or index), type, named?, children, leaves"""
     def __init__(self, name, ty, named=True):
@@ -873,7 +879,7 @@ def rand_tree(rng, depth, counter, named_levels=True):
     nodes = []
     for nm in names[:rng.choice([1, 1, 2, 2, 3])]:
         counter[0] += 1
-        t = Tree(nm, 'T%d' % counter[0])
+        t = Tree(nm, rng.choice(TREE_TYPE_FORMS) % counter[0])
         if depth > 1 and rng.random() < 0.5:
             t.kids = rand_tree(rng, depth - 1, counter)
         nodes.append(t)
@@ -906,6 +912,8 @@ def _c03_hinted_case(rng, i, kinds):
             if shape_named:
                 if not named or rng.random() < 0.4:
                     fa.append(Attr('map', 'm%d' % j))
+            elif rng.random() < 0.3:
+                fa.append(Attr('map', '~.clone()'))       # positional place, expression only: the place is the position inside the container
             else:
                 fa.append(Attr('map', str(pos)))
             pos += 1
@@ -1956,6 +1964,28 @@ def c15_injectors():
         f.attrs.insert(rng.randrange(len(f.attrs) + 1), Attr('ghost', '' if ded else None, ded=ded))
         return it, r"Member instruction #\[ghost\(\.\.\.\)\] for member '.*' should provide default value for type"
 
+    @add(7)
+    def ghost_without_default_beside_other_flavour(it, rng):
+        """a default #[ghost] without value next to a ghost that has a value but is dedicated to the counterpart for the OTHER ownership
+        flavour only (ghost_ref vs a from_owned conversion, ghost_owned vs from_ref): the value-less one is the ghost in effect"""
+        fs = [m for m in it.members if isinstance(m, Field) and not any(isinstance(a, Attr) and a.name in GHOSTS for a in m.attrs)]
+        owned = _has_kind(it, lambda k: k == 'from_owned')
+        byref = _has_kind(it, lambda k: k == 'from_ref')
+        if not fs or not (owned or byref) or it.kind != 'struct':
+            return None
+        if owned and (not byref or rng.random() < 0.5):
+            ta, other = rng.choice(owned), 'ghost_ref'
+        else:
+            ta, other = rng.choice(byref), 'ghost_owned'
+        if '..' in (getattr(ta, 'params', '') or ''):
+            return None
+        f = rng.choice(fs)
+        pair = [Attr(other, '{ 0 }', o2o=True, ded=ta.cp), Attr('ghost', None)]
+        if rng.random() < 0.5:
+            pair.reverse()
+        f.attrs += pair
+        return it, r"Member instruction #\[ghost\(\.\.\.\)\] for member '.*' should provide default value for type"
+
     @add(8)
     def child_without_child_parents(it, rng):
         fs = [m for m in it.members if isinstance(m, Field)]
@@ -2736,5 +2766,18 @@ def c19_cases(rng, n):
             # several faults at once: the diagnostics come out of a map
             fields[0].attrs += [Attr('map', 'x', ded='Zzz'), Attr('ghost', None, ded=None) if rng.random() < 0.5 else Attr('child', 'p.q')]
             attrs.append(Attr('where_clause', 'T: Clone', ded='Yyy'))
+        if rng.random() < 0.25:
+            # same-named counterparts (x::D / y::D / D<u8> / D::<u16>) next to instructions dedicated to a type that is none of them:
+            # whatever a diagnostic says about candidates must not depend on the iteration order of a set of types
+            twins = rng.sample(['x::D', 'y::D', 'D<u8>', 'D::<u16>', 'v1::m::D', 'z::D<i8>'], rng.choice([2, 3, 4]))
+            attrs = [trait_attr(rng.choice(['map', 'into', 'from', 'try_map']), t, '', 'Er') for t in twins]
+            ded = rng.choice(['D', 'w::D', 'D<i64>'])
+            fields[0].attrs += [Attr(rng.choice(['map', 'from', 'into']), 'x', ded=ded)]
+            if rng.random() < 0.5:
+                fields[1].attrs += [Attr('ghost', '{ 1 }', ded=ded)]
+            if rng.random() < 0.5:
+                attrs.append(Attr(rng.choice(['ghosts', 'where_clause', 'child_parents']), {'ghosts': 'g: { 1 }', 'where_clause': 'T: Clone', 'child_parents': 'p: P'}, ded=ded))
+                nm = attrs[-1].name
+                attrs[-1].args = attrs[-1].args[nm]
         out.append(Item('struct', 'S', 'named', '', attrs, fields, {'gen': 'c19'}))
     return out
